@@ -1,6 +1,6 @@
 (* Properties/C18.v - forgiving base64.  Only statements, closed by `exact`. *)
 From RU Require Import Base.Prelude Gen.Tables Model.Base64 Spec.Infra
-  Proofs.C18_Table Proofs.C18_Machine Proofs.C18_Body Proofs.C18_Spec.
+  Proofs.C18_Table Proofs.C18_Machine Proofs.C18_Body Proofs.C18_Spec Proofs.C18_BodyRef.
 
 (* the regenerated table is the RFC 4648 alphabet (Table 1, as the string in Spec/Infra.v and in closed
    form A-Z a-z 0-9 + /), every other entry is the negative sentinel -1 (in particular whitespace and
@@ -116,6 +116,22 @@ Theorem C18_body_b64 : forall (W E : Type) (write : W -> list N -> W * option E)
   (w', match v with None => BodyOk fragment | Some e => BodyErr e end).
 Proof. exact (@dwb_is_run). Qed.
 Print Assumptions C18_body_b64.
+
+(* what the "fault-free output" of the body decoders is (Proofs/C18_BodyRef.v body_ref: the body up to
+   the first '#', ASCII tab / newlines dropped, "%XY" with two hex digits contiguous in the text
+   replaced by the byte; the fragment is what follows the '#'): decode_without_base64 delivers exactly
+   that, decode_with_base64 its Infra forgiving-base64 decode *)
+Theorem C18_body_output : forall body,
+  (let (s, r) := decode_without_base64 kwrite (ksink_new None) body in
+   concat (ks_out s) = fst (body_ref body) /\ r = BodyOk (snd (body_ref body)))
+  /\
+  (let (s, r) := decode_with_base64 kwrite (ksink_new None) body in
+   match forgiving_base64_decode (fst (body_ref body)) with
+   | Some v => concat (ks_out s) = v /\ r = BodyOk (snd (body_ref body))
+   | None => exists e, r = BodyErr (InvalidBase64 e)
+   end).
+Proof. exact (fun body => conj (dwo_fault_free body) (dwb_fault_free body)). Qed.
+Print Assumptions C18_body_output.
 
 (* non-vacuity: "YWJj ZA==" with whitespace decodes to "abcd"; the failing sink is reached; 256 '=' are refused *)
 Example C18_nonvacuous :
